@@ -24,6 +24,7 @@ from mc.env import rng_state_key
 
 ID = 'C10'
 REGISTERED = True
+NONDETERMINISM_IS_VIOLATION = True       # see engine: a case that differs between two fresh processes is a violation of this property, not a harness error
 LEVEL = 'model_checking'
 TECHNIQUE = ('explicit-state search over call histories (all sequences up to length 2/3 over a finite alphabet of library '
              'calls and global-generator perturbations), each transition compared bit-for-bit with a fresh-interpreter '
